@@ -299,6 +299,7 @@ func (fv *FuncVC) loopHeader(b *ssa.BasicBlock, phis []*ssa.Phi, entryVal func(*
 	}
 	if spec != nil {
 		env := fv.newEnv(fv.cur, fv.entry)
+		env.assuming = true
 		fv.bindRangeLen(env, b)
 		for _, ph := range phis {
 			env.names[phiName(ph)] = fv.vals[ph]
